@@ -277,6 +277,82 @@ def check_conv(ctx, sc, roots, meta):
                 own_ok(ctx, key + '/own', p, w, [str(x) for x in leaves(p.ret)], ins)
 
 
+# ------------------------------------------------------------------ unwinding and default iterator methods
+def unwind_roots(kinds):
+    """(a) the provided Iterator methods driven over a partly consumed consuming iterator (an override of nth / fold / last / count in vek is then
+    interpreted and judged like next); (b) a user closure that panics in the middle (`maybe_unwind()` forks: returns, or unwinds through
+    the cleanup edges of every frame): no element may be dropped twice or read after it was moved, whatever the moment of the panic"""
+    roots = []; meta = {}
+
+    def add(name, code, mp, **m):
+        roots.append(Root(name, code, max_paths=mp)); meta[name] = m
+
+    for K in kinds:
+        N = vdim(K); V = '%s<Tok>' % K
+        states = [(0, 0), (1, 0), (0, 1), (1, 1)] if N <= 8 else [(N - 2, 0), (0, N - 2), (N - 3, 1)]
+        states = [(f, b) for f, b in states if f + b <= N]
+        for f, b in states:
+            rem = N - f - b; tag = '%s_%d_%d' % (K, f, b)
+            pre = pulls(f, b)
+            add('r_u_fold_' + tag, 'pub fn r_u_fold_%s(v: %s) { %s it.fold((), |(), t| { maybe_unwind(); drop(t) }) }' % (tag, V, pre), rem + 2, kind='unw', K=K, f=f, b=b)
+            add('r_u_foreach_' + tag, 'pub fn r_u_foreach_%s(v: %s) { %s it.for_each(|t| { maybe_unwind(); drop(t) }) }' % (tag, V, pre), rem + 2, kind='unw', K=K, f=f, b=b)
+            add('r_u_nth_' + tag, 'pub fn r_u_nth_%s(v: %s) -> (Option<Tok>, Option<Tok>) { %s let x = it.nth(1); let y = it.next(); (x, y) }' % (tag, V, pre), 4, kind='adapt', K=K, f=f, b=b)
+            add('r_u_last_' + tag, 'pub fn r_u_last_%s(v: %s) -> Option<Tok> { %s it.last() }' % (tag, V, pre), 4, kind='adapt', K=K, f=f, b=b)
+            add('r_u_count_' + tag, 'pub fn r_u_count_%s(v: %s) -> usize { %s it.count() }' % (tag, V, pre), 4, kind='count', K=K, f=f, b=b)
+        if N <= 8:
+            add('r_u_map_' + K, 'pub fn r_u_map_%s(v: %s) -> %s { v.map(|t| { maybe_unwind(); t }) }' % (K, V, V), N + 2, kind='unw', K=K, f=0, b=0)
+            add('r_u_fromiter_' + K, 'pub fn r_u_fromiter_%s(a: [Tok; %d]) -> %s { a.into_iter().map(|t| { maybe_unwind(); t }).collect() }' % (K, N, V), N + 2, kind='unw_arr', K=K, f=0, b=0)
+    return roots, meta
+
+
+def _flat(x):
+    if isinstance(x, list): return [y for e in x for y in _flat(e)]
+    if isinstance(x, Enum): return [y for e in x.fields for y in _flat(e)]
+    if isinstance(x, Ptr): return _flat(x.v)
+    return [] if x is None else [str(x)]
+
+
+def check_unwind(ctx, sc, roots, meta):
+    nunw = 0
+    for r in roots:
+        rs = sc.get(r.name); m = meta[r.name]
+        if rs is None or not rs.ok: continue
+        K = m['K']; N = vdim(K); key = 'c18/unwind/' + r.name[4:]; w = r.code; k = m['kind']
+        T = ['a0[%d]' % i for i in range(N)] if k == 'unw_arr' else toks('a0', K)
+        rets = [p for p in rs.paths if p.out == 'ret']; unws = [p for p in rs.paths if p.out == 'unwind']
+        ctx.ob(key + '/outcomes', len(rets) == 1 and len(rets) + len(unws) == len(rs.paths), 'paths: one returning outcome, the others are unwinding from the user closure', w, 'ret + unwinds', [p.out for p in rs.paths])
+        rem = N - m['f'] - m['b']
+        if k in ('unw', 'unw_arr'):
+            ctx.ob(key + '/every-panic-point', len(unws) == (rem if k == 'unw' else N), 'paths: the closure is called once per remaining element, so there is one unwinding outcome per element', w, rem if k == 'unw' else N, len(unws))
+        for i, p in enumerate(rs.paths):
+            if p.out not in ('ret', 'unwind'): continue
+            dropped = [str(p.term(e[1])) for e in p.ev('drop')]
+            bad = [e[1] for e in p.ev('badread')]
+            out = _flat(p.ret) if p.out == 'ret' else []
+            out = [o for o in out if o in T]
+            counts = {t: out.count(t) + dropped.count(t) for t in T}
+            pk = '%s/%s%d' % (key, p.out, i)
+            if p.out == 'ret':
+                wrong = {t: c for t, c in counts.items() if c != 1}
+                ctx.ob(pk + '/each-once', not wrong, 'own: every element is yielded / returned once or dropped once (provided iterator methods and closure-taking methods included)', w, 'each accounted once', wrong)
+            else:
+                nunw += 1
+                wrong = {t: c for t, c in counts.items() if c > 1}
+                ctx.ob(pk + '/no-double-drop', not wrong, 'own (unwinding): when the user closure panics, no element is dropped twice, whatever the moment of the panic', w, 'each dropped at most once', wrong)
+            ctx.ob(pk + '/no-bad-read', not bad, 'own: no read of a moved-out or uninitialised slot', w, [], bad)
+        if k == 'count' and rets:
+            ctx.ob(key + '/value', str(rets[0].ret) == str(rem), 'count() of the consuming iterator is the number of remaining elements', w, rem, str(rets[0].ret))
+        if k == 'adapt' and rets and r.name.startswith('r_u_nth'):
+            seq = T[m['f']:N - m['b']]
+            exp = [seq[1] if len(seq) > 1 else 'None', seq[2] if len(seq) > 2 else 'None']
+            got = [unopt(x) for x in rets[0].ret]
+            ctx.ob(key + '/value', got == exp, 'nth(1) yields the second remaining element and the next pull the third', w, exp, got)
+        if k == 'adapt' and rets and r.name.startswith('r_u_last'):
+            seq = T[m['f']:N - m['b']]
+            ctx.ob(key + '/value', unopt(rets[0].ret) == (seq[-1] if seq else 'None'), 'last() yields the last remaining element', w, seq[-1] if seq else 'None', unopt(rets[0].ret))
+    ctx.counts['unwinding outcomes analysed'] = nunw
+
+
 def _storage(ins, L, n):
     """input tokens (listed in (row, col) reading order) in storage order"""
     if L == 'Rows': return ins
@@ -318,7 +394,7 @@ def run(ctx):
                        'the same abstract state as pulling the fronts first) and the fixed point at exhaustion make the canonical states cover every interleaving of next/next_back, by induction on the history length. '
                        '(2) Array / nested array / tuple / iterator conversions of vectors and matrices are interpreted with the same element type: every input element must reach exactly one output slot in the documented '
                        'order or be dropped exactly once. (3) Slice views must point at the value\'s own first element with length = element count = storage size.')
-    ctx.assumptions = ['a panic inside a user closure (unwinding) is outside the statement', 'the abstract iterator state is (storage slots, front cursor, back cursor): the three fields of the struct; equal abstract states have equal futures because the interpreter is deterministic']
+    ctx.assumptions = ['panics inside user closures are followed through the cleanup edges for fold / for_each / map / collect (one panic point per element); panics raised by vek itself end the path', 'the abstract iterator state is (storage slots, front cursor, back cursor): the three fields of the struct; equal abstract states have equal futures because the interpreter is deterministic']
     quick = ctx.tier == 'quick'
     feats = ALL_FEATURES
     kinds = vec_kinds(feats)
@@ -328,11 +404,13 @@ def run(ctx):
         r, m, st = iter_roots(K, quickish=quick)
         roots += r; meta.update(m); kinds_states[K] = st
     croots, cmeta = conv_roots(kinds)
-    sc = ctx.scan(roots + croots, feats, extra_prelude=PRELUDE, local=True)
+    uroots, umeta = unwind_roots(kinds)
+    sc = ctx.scan(roots + croots + uroots, feats, extra_prelude=PRELUDE, local=True)
     if sc.compile_error: return
     check_iter(ctx, sc, roots, meta, kinds_states)
     check_conv(ctx, sc, croots, cmeta)
-    if not ctx.only: check_local(ctx, sc, roots + croots)
+    check_unwind(ctx, sc, uroots, umeta)
+    if not ctx.only: check_local(ctx, sc, roots + croots + uroots)
     ctx.floor('iterator states analysed', sum(len(v) for v in kinds_states.values()), 220 if quick else 2992)
     ctx.floor('vector kinds with a model-checked iterator', len(kinds_states), 11 if quick else 13)
     ctx.floor('conversion / view roots', len(croots), 386)
